@@ -102,6 +102,22 @@ class Spec(object):
     def families(self, tier):
         return focused(tier)
 
+    def explicit_families(self, tier):
+        out = []
+
+        def mk(name, nodes, classes, sc):
+            out.append(cfg(name, "E", nodes, classes, K=None, D=INF, entry=["deadlock"], tracker="NaiveBlocking", detector="StateDigraph",
+                           system_capacity=sc, features=["explicit", "deadlock"]))
+        mk("E cycle2 c=(1,1) caps=(1,0) syscap=4", [node(c=1, cap=1), node(c=1, cap=0)],
+           {"A": klass([ARR, None], [[1.0, 2.0], [1.0, 0.5]], route=matrix([[0.0, 1.0], [0.5, 0.0]]))}, 4)
+        if tier != "quick":
+            mk("E cycle2 c=(2,1) caps=(0,0) syscap=4", [node(c=2, cap=0), node(c=1, cap=0)],
+               {"A": klass([ARR, None], [[1.0, 2.0], [1.0, 0.5]], route=matrix([[0.0, 1.0], [0.5, 0.0]]))}, 4)
+            mk("E selfloop c=2 cap=0 syscap=3", [node(c=2, cap=0)], {"A": klass([ARR], [[1.0, 2.0]], route=matrix([[0.5]]))}, 3)
+            mk("E cycle3 syscap=4", [node(c=1, cap=0), node(c=1, cap=0), node(c=1, cap=0)],
+               {"A": klass([ARR, None, None], [[1.0, 2.0], [1.0, 0.5], [1.0]], route=matrix([[0.0, 1.0, 0.0], [0.0, 0.0, 1.0], [0.5, 0.0, 0.0]]))}, 4)
+        return out
+
 
 def focused(tier):
     E = 14 if tier == "quick" else 18
